@@ -90,19 +90,29 @@ def one_d_vs_two_d(rep, rng, conf, tier):
         rep.violation("2D radial non-uniformity (in-place sweep)" if spread <= 1.0 else "2D radial non-uniformity larger than the in-place sweep's", "%s: with no radial heat flux the 2D temperature field is not radially uniform: spread %.3g K during cooling; "
                       "t_nuc 1D %.2f min vs 2D %.2f min" % (lab, spread, float(r1["t_nuc"]), float(r2["t_nuc"])), dict(pair=lab, spread=float(spread)))
     if conf == "VISF":
-        # evaporative cooling of the top surface at the end of the vacuum window (liquid stage), relative to the shelf-only run
+        # evaporative cooling of the (liquid) top surface: a weak, early vacuum pulse that does not nucleate the vial (0.1 h + 0.05 h, kappa 0.001, chamber at 1000 Pa), judged
+        # at the end of the window and 300 s after it has closed, relative to the shelf-only run: 1D and 2D agree within 10 %
+        exw = dict(extra); exw["VISF"] = {"t_vac_start": 0.1, "t_vac_duration": 0.05, "kappa": 0.001, "p_vac": 1000}
+        Sv1 = sr.make(dim="spatial_1D", conf="VISF", height=h, diameter=d, K=300, prog=prog, extra=exw); sr.run(Sv1)
+        Sv2 = sr.make(dim="spatial_2D", conf="VISF", height=h, diameter=d, K=300, prog=prog, extra=exw); sr.run(Sv2)
         Sa = sr.make(dim="spatial_1D", conf="shelf", height=h, diameter=d, K=300, prog=prog, extra=extra); sr.run(Sa)
         Sb = sr.make(dim="spatial_2D", conf="shelf", height=h, diameter=d, K=300, prog=prog, extra=extra); sr.run(Sb)
-        tw = (0.3 + 0.25) * 3600 - 5
-        def top(S, dt, two):
-            t = np.asarray(S.time) * 3600; k = int(np.argmin(np.abs(t - tw)))
+        try:
+            rep._c2.append(sr.sn2d_case(Sv2, dt2, rng)[0]); rep._l2.append(lab + " (weak early vacuum pulse)")
+        except Exception as e:
+            rep.violation("correspondence-case-2D", "cannot build the 2D one-step case: %r" % e, dict(pair=lab), found_input=False)
+        def top(S, two, tq):
+            t = np.asarray(S.time) * 3600; k = int(np.argmin(np.abs(t - tq)))
             T = np.asarray(S.temp)
             return float(T[k][-1].mean() if two else T[k][-1])
-        d1 = top(Sa, dt1, False) - top(S1, dt1, False)
-        d2 = top(Sb, dt2, True) - top(S2, dt2, True)
-        rep.coverage["evaporative_cooling_top_1D_vs_2D_K"] = [d1, d2]
-        if float(r1["t_nuc"]) * 60 > tw and float(r2["t_nuc"]) * 60 > tw and d1 > 0.05 and not (0.9 <= d2 / d1 <= 1.1):
-            rep.violation("2D evaporative cooling differs from 1D", "%s: at the end of the vacuum window the top surface is %.3f K colder than without vacuum in 1D but %.3f K in 2D" % (lab, d1, d2), dict(pair=lab, d1=d1, d2=d2))
+        tnmin = min(float(S_.results.iloc[0]["t_nuc"]) * 60 for S_ in (Sv1, Sv2, Sa, Sb))
+        for name, tq in (("at the end of the vacuum window", (0.1 + 0.05) * 3600 - 5), ("300 s after the vacuum window closed", (0.1 + 0.05) * 3600 + 300)):
+            d1 = top(Sa, False, tq) - top(Sv1, False, tq)
+            d2 = top(Sb, True, tq) - top(Sv2, True, tq)
+            rep.coverage["evaporative_cooling_top_1D_vs_2D_K " + name] = [d1, d2]
+            if tnmin > tq and d1 > 0.05 and not (0.9 <= d2 / d1 <= 1.1):
+                rep.violation("2D evaporative cooling differs from 1D", "%s: %s the top surface is %.3f K colder than without vacuum in 1D but %.3f K in 2D" % (lab, name, d1, d2), dict(pair=lab, d1=d1, d2=d2, when=name))
+        rep.case(lab + " weak early vacuum pulse", nontrivial=tnmin > (0.1 + 0.05) * 3600 + 300)
 
 
 def check(rep, tier):
